@@ -11,7 +11,7 @@ def check_preserve(case):
     nl, spec = case['nl'], case['spec']
     c = build.build(nl, case['route'])
     before = wellformed.snapshot(c)
-    res = simp.apply_spec(spec, c, reuse=bool(case.get('reuse_instance')))
+    res = simp.apply_spec(spec, c, reuse=bool(case.get('reuse_instance')), hand=case.get('hand', 'list'))
     if res is c:
         raise Violation('same_object', 'the pass returned its argument instead of a new circuit')
     after = wellformed.snapshot(c)
@@ -37,6 +37,8 @@ def check_preserve(case):
     cls = gen.classify(nl) | simp.spec_classes(spec) | simp.netlist_twin_classes(nl)
     if case.get('reuse_instance'):
         cls.add('pass_object_reused')
+    if spec[0] == 'list':
+        cls.add('list_as:' + case.get('hand', 'list'))
     changed = sorted(map(repr, res_nl['gates'])) != sorted(map(repr, nl['gates'])) or res_nl['outputs'] != nl['outputs']
     return {'nt': changed, 'cls': cls, 'key': [nl['inputs'], nl['gates'], nl['outputs'], spec],
             'sample': {'bench': build.bench_text(nl), 'pipeline': spec, 'result': build.bench_text(res_nl)}}
